@@ -15,11 +15,11 @@ import Cx.Proofs.LitCheck
     necessity := the verified literal checker, `Lit.checkSuffix N [suffix] = true`   (`Lit.checkSuffix_sound`)
     lb_restart := proved for `btSearchAt` (`btSearchAt_restart`)
 
-  The reverse oracle stays abstract: `Cx.Model.Dfa` has no model of `SearchReverse` / `SearchReverseLimited`
-  (lazy.go:1735 / 1903; the model's header lists "reverse searches" as left out, and every DFA theorem assumes
-  `breakAtMatch = true`, while the reverse DFA runs with `BreakAtMatch = false`).  What IS proved: the contract the strategy
-  needs follows from a contract stated on the reverse AUTOMATON `Rev.reverse N false` (= `nfa.Reverse(N)`) run over the
-  reversed haystack (`RevDfaContract`, via `Rev.reverse_accepts`).  The missing statement is therefore exactly:
+  In THIS file the reverse oracle stays abstract: the contract the strategy needs is stated on the reverse AUTOMATON
+  `Rev.reverse N false` (= `nfa.Reverse(N)`) run over the reversed haystack (`RevDfaContract`, via `Rev.reverse_accepts`).
+  `Cx.Proofs.RevSuffixDfa` discharges it with the model of `SearchReverse` / `SearchReverseLimited` (`Cx.Model.DfaRev`,
+  reverse DFA with `BreakAtMatch = false`; theorems `Cx.Proofs.DfaRev`, `Cx.Proofs.DfaRevRef`) and restates the theorems
+  below without the contract (`C14_revSuffix_find_eq_reference_closed`).  The statement that was needed:
 
       a model `searchReverse N' cfg h lo e` of lazy.go:1735 on `N' = Rev.reverse N false` with `breakAtMatch = false`, and
         searchReverse … = some s → lo ≤ s ≤ e ∧ AcceptsA N' (revB h) (|h|-e) (|h|-s) ∧ ∀ s' ∈ [lo, s), ¬ AcceptsA N' (revB h) (|h|-e) (|h|-s')
